@@ -173,3 +173,17 @@ Example C14_difference_refines_nonvacuous : _ := pull_eq_list_slice_diff_ex.
 From CG Require Import Gen.Source Proofs.GenEq7.
 Example C14_source_getitem_is_model : _ := g_getitem_is_model.
 Print Assumptions C14_source_getitem_is_model.
+
+(* ---- the open-ended prefix theorem under a complement (Proofs/PullCompl.v): for ~s, flatten s = ~~s, ~~~s ...
+   over a complement-free s the first n results of the open-ended slice are the first n results of every long
+   enough bounded slice, up to the end bound of a result that reaches the bound (None in the open query, b in
+   the bounded one) — exactly, when no result is unbounded.  `_partial`: an operator ABOVE the complement
+   (union, intersection, difference, filter, buffer) is not covered. ---- *)
+From CG Require Import Proofs.PullCompl.
+Example C14_open_compl_tower_is_list_prefix_partial : _ := open_compl_tower_is_list_prefix_partial.
+Check open_compl_tower_is_list_prefix_partial.
+Print Assumptions C14_open_compl_tower_is_list_prefix_partial.
+Example C14_open_compl_tower_exact_partial : _ := open_compl_tower_exact_partial.
+Print Assumptions C14_open_compl_tower_exact_partial.
+Example C14_open_compl_nonvacuous : _ := open_compl_tower_ex.
+Example C14_open_compl_clip_occurs : _ := open_compl_slice_clip_ex.
